@@ -100,9 +100,121 @@ def oracle (prev cur : State) (mop : MOp) (r : String) : List String :=
         else ["C05.spawn-result"]
       | _ => [])
 
+/-! E-THR: `race cause=<c> nc=<n> kind=<link|spawnl> j=<j>`
+observation `res=<true|false|ok|err> at=<point> | <snapshot>` -/
+
+structure Race where
+  cause : String
+  nc : Nat
+  spawnl : Bool
+  j : Nat
+
+def parseRace? (ws : List String) : Option Race := do
+  let get (k : String) : Option String :=
+    (ws.find? (·.startsWith (k ++ "="))).map (fun w => (w.drop (k.length + 1)).toString)
+  pure { cause := ← get "cause", nc := ← (← get "nc").toNat?, spawnl := (← get "kind") == "spawnl", j := ← (← get "j").toNat? }
+
+/-- what of the supervisor's exit has been executed, read off the names of the schedule points
+that started the executed regions: worklist visits (`tree.take`), the first `status.publish`
+(Stopping), `cleanup.unlink`, the `status.publish` after `cleanup.stopped` (Stopped).  `beyond`: the
+children's own exits have begun (no mid-exit comparison there). -/
+structure Progress where
+  visits : Nat := 0
+  pub : Bool := false
+  detach : Bool := false
+  seenCleanupStopped : Bool := false
+  stopped : Bool := false
+  beyond : Bool := false
+
+def progressOf (pts : List String) : Progress :=
+  pts.foldl (fun (g : Progress) name =>
+    if g.stopped then
+      (if name == "tree.take" || name == "status.publish" || name.startsWith "cleanup." then { g with beyond := true } else g)
+    else if name == "tree.take" then { g with visits := g.visits + 1 }
+    else if name == "status.publish" then
+      (if !g.pub then { g with pub := true } else if g.seenCleanupStopped then { g with stopped := true } else g)
+    else if name == "cleanup.unlink" then { g with detach := true }
+    else if name == "cleanup.stopped" then { g with seenCleanupStopped := true }
+    else g) {}
+
+/-- number of machine steps that correspond to the executed regions (silent steps are taken eagerly) -/
+def stepsFor (kill : Bool) (s : State) (a : Nat) (g : Progress) : Nat := Id.run do
+  let mut x := xinit kill a s
+  let mut g := g
+  let mut k := 0
+  for _ in [0:4 * s.n + 32] do
+    let go ← match x.pc with
+      | .pre [] => pure true
+      | .pre (_ :: _) => if g.visits > 0 then do g := { g with visits := g.visits - 1 }; pure true else pure false
+      | .pub => if g.pub then do g := { g with pub := false }; pure true else pure false
+      | .loop [] => pure (g.detach || g.visits > 0 || g.stopped)
+      | .loop (_ :: _) => if g.visits > 0 then do g := { g with visits := g.visits - 1 }; pure true else pure false
+      | .detach => if g.detach then do g := { g with detach := false }; pure true else pure false
+      | .publishStopped => if g.stopped then do g := { g with stopped := false }; pure true else pure false
+      | .done => pure false
+    if go then
+      x := xstep codeFixed a x
+      k := k + 1
+  return k
+
+/-- the model's prediction for one race case: result, mid-exit state, final state -/
+def raceModel (r : Race) (pts : List String) : MState × String × Nat × State × Bool :=
+  -- supervisor 0, children 1..nc, then the orphan (link) or the new child in `Starting` (spawn_linked)
+  let s0 := setStatus (spawn init) 0 .running
+  let s1 := (List.range r.nc).foldl (fun s i =>
+    setStatus (link (spawn s) (i + 1) 0).1 (i + 1) .running) s0
+  let c := r.nc + 1
+  let s2 := if r.spawnl then spawn s1 else setStatus (spawn s1) c .running
+  let s3 := if r.cause == "drain" then setStatus s2 0 .draining else s2
+  let kill := r.cause == "kill"
+  let g := progressOf pts
+  let k := stepsFor kill s3 0 g
+  let mid := (link (xrun codeFixed 0 k (xinit kill 0 s3)).t c 0).1
+  let (x, res) := raceRun codeFixed kill s3 0 c 0 k (4 * s3.n + 32)
+  let m0 : MState := { t := x.t, act := upd (fun _ => {}) 0 { gone := true } }
+  -- spawn_linked: a refused link fails the spawn (the new cell is cleaned up), an accepted one goes on to Running
+  let m1 := if r.spawnl then
+      (if res then { m0 with t := setStatus m0.t c .running } else exitM codeFixed m0 c)
+    else m0
+  let m2 := settle codeFixed m1.t.n m1
+  let resS := if r.spawnl then (if res then "ok" else "err") else toString res
+  (m2, resS, c, mid, g.beyond)
+
+def showSnap (t : State) (sep : String) : String :=
+  sep.intercalate ((List.range t.n).map fun i => showActor { t := t } i)
+
+def raceStep (r : Race) (impl : String) : StepOut :=
+  let field (k : String) : String :=
+    match (words impl).find? (·.startsWith (k ++ "=")) with | some w => (w.drop (k.length + 1)).toString | none => "?"
+  let pts := if field "pts" == "-" then [] else splitOnChar (field "pts") ','
+  let (m, resS, c, mid, beyond) := raceModel r pts
+  -- `at`: predicted for position 0 (the first schedule point of the exit), copied otherwise
+  let at_ := if r.j == 0 then (if r.cause == "kill" then "tree.take" else
+                 if r.cause == "drain" then field "at" else "status.publish") else field "at"
+  let midS := if beyond then field "mid" else showSnap mid ";"
+  let model := s!"res={resS} at={at_} pts={field "pts"} mid={midS} | {showSnap m.t " "}"
+  let orc := match impl.splitOn " |" with
+    | [_, rest] =>
+      match parseSnapshot? ("r=x |" ++ rest), parseSnapshot? ("r=x | " ++ (field "mid").replace ";" " ") with
+      | some (_, cur), some (_, midI) =>
+        let ir := field "res"
+        (if ok cur then [] else ["C05.ok race-snapshot"])
+        -- both threads parked outside the tree lock: the link maps are consistent in the middle of the exit too
+        ++ (if linksOk midI && setsOk midI && stoppedOk midI then [] else ["C05.ok mid-exit-snapshot"])
+        ++ (if ir == "false" || ir == "err" || cur.status c == .stopped then [] else ["C05.race-orphan"])
+        ++ (if (List.range (r.nc + 1)).all (fun i => cur.status i == .stopped) then [] else ["C05.subtree-dies"])
+        ++ (if ir == "err" && cur.status c != .stopped then ["C05.spawn-err-not-stopped"] else [])
+      | _, _ => ["unparsable"]
+    | _ => ["unparsable"]
+  { model := model, oracle := orc, nontrivial := true }
+
 def step (st : DState) (op impl : String) : DState × StepOut :=
   match (words op).filter (fun w => !w.startsWith "h=") with
   | ["case", _] => ({}, { model := "ok" })
+  | "race" :: ws =>
+    match parseRace? ws with
+    | some r => (st, raceStep r impl)
+    | none => (st, { model := "bad-op" })
   | ws =>
     match parseMOp? ws with
     | none => (st, { model := "bad-op" })
